@@ -21,9 +21,18 @@ TrInit == IsEv("frinit") /\ scen' = E.label /\ viol' = {} /\ l' = l + 1
 
 \* the model's view of a recorded packet: total length and declared lengths as the spec computed them
 SpecWalk(e, dlens, total) == Walk(total, dlens, 12)
+\* I-FORWARD-TSN field fidelity. What an I-FORWARD-TSN says is, per (stream, U bit), the serially newest message
+\* identifier listed; entries of one key may be merged on the way out, but the keys and each key's newest MID must be
+\* those the chunk was built from. MIDs are logged as signed distances from 2^32 - 1, so serial order is integer order.
+RangeOf(s) == {s[i] : i \in DOMAIN s}
+KeysOf(s) == {<<x[1], x[2]>> : x \in RangeOf(s)}
+NewestOf(s, k) == LET S == {x[3] : x \in {y \in RangeOf(s) : y[1] = k[1] /\ y[2] = k[2]}} IN CHOOSE m \in S : \A x \in S : x <= m
+IfwdSame(q) == KeysOf(q.built) = KeysOf(q.got) /\ \A k \in KeysOf(q.built) : NewestOf(q.built, k) = NewestOf(q.got, k)
+IfwdViol(e) == IF "ifwd" \in DOMAIN e THEN {V("C12_FieldsAsBuilt", <<e.bundle, q.i, q.built, q.got>>) : q \in {r \in RangeOf(e.ifwd) : ~IfwdSame(r)}} ELSE {}
 FrameViol(e) ==
   IF e.marshal # "ok" THEN {V("C12_Encodes", <<e.bundle, e.marshal>>)}
   ELSE
+    IfwdViol(e) \cup
     (IF e.wf # <<>> THEN {V("C12_WellFormed", <<e.bundle, e.wf>>)} ELSE {})
     \cup (IF e.len # e.mlen \/ e.lens # e.mlens \/ e.offs # e.moffs THEN {V("C12_LayoutAsSpecified", <<e.bundle, e.len, e.mlen, e.lens, e.mlens>>)} ELSE {})
     \cup (IF e.ck # "ok" THEN {V("C13_EmitCorrect", <<e.bundle>>)} ELSE {})
